@@ -214,6 +214,8 @@ def report(mod, tier, total, wall, ntasks):
         nviol += 1
     if len(unknown) > MAX_REPORTED:
         print('  ... %d further distinct signatures not written out' % (len(unknown) - MAX_REPORTED))
+    if not unknown and os.environ.get('VERIF_DUMP') and os.path.exists(os.environ['VERIF_DUMP']):
+        os.unlink(os.environ['VERIF_DUMP'])
     if unknown and os.environ.get('VERIF_DUMP'):
         with open(os.environ['VERIF_DUMP'], 'w') as f:
             json.dump([{'signature': s_, 'instances': total._sig_count.get(s_, 0), 'first': by_sig[s_][0]} for s_ in unknown], f, indent=1,
